@@ -181,12 +181,14 @@ def seq_view(c):
        r"|^std::array::<impl std::clone::Clone for \[.*\]>::clone$|^<\[.*; \d+\] as std::clone::Clone>::clone$|^std::slice::<impl \[.*\]>::into_boxed")
 def seq_copy(c):
     src = c.deref(c.args[0])
-    return [(c.st, Seq(c.seq_len(c.args[0]), None, None, None, src.content() if isinstance(src, Seq) else None))]
+    items = src.items if isinstance(src, Seq) and isinstance(src.items, Struct) and src.items.tag == "elems" else None
+    return [(c.st, Seq(c.seq_len(c.args[0]), None, items, None, src.content() if isinstance(src, Seq) else None))]
 
 
 @model(r"^<&\[u8\] as std::convert::Into<std::boxed::Box<\[u8\]>>>::into$|^<std::vec::Vec<u8> as std::convert::Into<std::boxed::Box<\[u8\]>>>::into$|^<&str as std::convert::Into<std::string::String>>::into$")
 def seq_into(c):
-    return [(c.st, Seq(c.seq_len(c.args[0])))]
+    src = c.deref(c.args[0])
+    return [(c.st, Seq(c.seq_len(c.args[0]), None, None, None, src.content() if isinstance(src, Seq) else None))]
 
 
 @model(r"^std::vec::from_elem::<")
@@ -205,7 +207,17 @@ def _set_len(c, ref, newlen, add_item=None, keep_items=False):
         cur = c.it.load(c.st, ref.cell, ref.path)
         items = None
         if isinstance(cur, Seq):
-            if add_item is not None:
+            n0 = c.st.sys.const_value(cur.len)
+            listed = isinstance(cur.items, Struct) and cur.items.tag == "elems"
+            if add_item is not None and n0 is not None and n0 < 32 and (listed or (n0 == 0 and isinstance(cur.items, Empty))) \
+                    and isinstance(add_item, Num) and add_item.e.is_const():
+                # a short list of constants stays a list
+                f = dict(cur.items.f) if listed else {}
+                f[n0] = add_item
+                items = Struct(f, tag="elems")
+            elif listed:
+                items = None
+            elif add_item is not None:
                 items = weak_join(cur.items, add_item)
             elif keep_items:
                 items = cur.items
@@ -432,6 +444,15 @@ def index(c):
     if idx == "usize":
         i = c.num(c.args[1], 1)
         c.require_ge(ln - i - 1, "index:elem", "element index < len")
+        rt = c.ret_ty()
+        et = c.fr.body.ty(rt["to"]) if rt.get("k") == "ref" else rt
+        ev = c.it.element_value(c.st, c.deref(c.args[0]), i, et)
+        if ev is not None:
+            if rt.get("k") == "ref":
+                cell = "%s/%d.%d:elem" % (c.fr.id, c.bb, c.part)
+                c.st.cells[cell] = ev
+                return [(c.st, Ref(cell))]
+            return [(c.st, ev)]
         return [(c.st, c.top_ret())]
     c.oblige(False, "index:unknown", "index kind %s" % idx, "unmodelled index type")
     return None
@@ -478,8 +499,19 @@ def slice_get(c):
         s_no.sys.add_ge(i - ln)
         out = []
         if not s_ok.sys.bottom and c.it.feasible_wrt(s_ok, set(ln.t) | set(i.t)):
-            r = c.top_ret(s_ok)
-            out.append((s_ok, r.only(1) if isinstance(r, Enum) and 1 in r.v else r))
+            ev = None
+            at = c.arg_ty(0)
+            if at.get("k") in ("ref", "ptr"):
+                at = c.fr.body.ty(at["to"])
+            if at.get("k") in ("slice", "array"):
+                ev = c.it.element_value(s_ok, src, i, c.fr.body.ty(at["of"]))
+            if ev is not None:
+                cell = "%s/%d.%d:elem" % (c.fr.id, c.bb, c.part)
+                s_ok.cells[cell] = ev
+                out.append((s_ok, Enum(OPTION, {1: Struct({0: Ref(cell)})})))
+            else:
+                r = c.top_ret(s_ok)
+                out.append((s_ok, r.only(1) if isinstance(r, Enum) and 1 in r.v else r))
         if not s_no.sys.bottom and c.it.feasible_wrt(s_no, set(ln.t) | set(i.t)):
             out.append((s_no, none))
         return out
@@ -863,6 +895,14 @@ def option_cloned(c):
 
 @model(r"^std::option::Option::<.*>::(as_ref|as_mut|as_deref|take|unwrap_or|unwrap_or_default|or|and|filter|is_some_and|iter)$|^std::result::Result::<.*>::(as_ref|as_mut|unwrap_or|unwrap_or_default|err|iter)$")
 def option_misc(c):
+    v = c.args[0]
+    if re.search(r"::unwrap_or$", c.name) and isinstance(v, Enum) and len(c.args) == 2:
+        # one outcome per variant (the caller's states are kept apart by the variant of the option)
+        out = []
+        for i, s_ in sorted(v.v.items()):
+            st_i = c.st if len(v.v) == 1 else c.st.copy()
+            out.append((st_i, s_.get(0) if (i == 1) == (v.adt == OPTION) else c.args[1]))
+        return out
     for a in c.args[1:]:
         c.escape(a)
     if c.name.endswith("::take"):
@@ -901,7 +941,7 @@ def into(c):
         return [(c.st, c.top_ret())]
     v = c.deref(c.args[0])
     if isinstance(v, Seq) and (u.startswith(("std::boxed::Box<[", "std::vec::Vec<", "std::string::String")) or u.startswith("&[")):
-        return [(c.st, Seq(v.len))]
+        return [(c.st, Seq(v.len, None, None, v.view if u.startswith("&[") else None, v.src if u.startswith("&[") else v.content()))]
     return None
 
 
@@ -914,7 +954,7 @@ def from_(c):
             return [(c.st, Num(e))]
     v = c.deref(c.args[0])
     if isinstance(v, Seq) and tr.get("k") == "adt" and tr["path"] in ("std::boxed::Box", "std::vec::Vec", "std::string::String"):
-        return [(c.st, Seq(v.len))]
+        return [(c.st, Seq(v.len, None, None, None, v.content()))]
     if int_range(ta) is not None and tr.get("k") == "adt" and tr["path"] == "std::result::Result":
         args_ = tr.get("args", [])
         inner = c.fr.body.ty(args_[0]) if args_ else {}
@@ -1322,3 +1362,6 @@ def atomics(c):
 @model(r"^<std::ops::ControlFlow<.*> as ")
 def cflow(c):
     return [(c.st, c.top_ret())]
+
+
+import absint.models_std2      # noqa: E402  (registers further models; needs M)
